@@ -6,7 +6,7 @@ CFG = {'streams': [{'name': 'C04',
               'what_fails': 'scoped-variable programs: model vs implementation in strict (codes 1-7) or lazy (100+code) mode; 95 the recorded strict and merged matches are not related as assumptions A1-A3 say (idx_agreeb); 92 two syntax nodes '
                             'share a truncated id (KeyInjective fails); 93 Node::parent disagrees with the cursor walk'}],
  'rule': 'programs composed from scoped-variable idioms (definition on one capture, read through another capture / list element / nested scope '
-         '@n.owner.k, inherit declared or not, duplicate definition on one node, lookup on a node lacking the variable) in random stanza order x '
+         '@n.owner.k, inherit declared or not, duplicate definition on one node, three definitions of one name with two on the module and one on its first child in between, lookup on a node lacking the variable) in random stanza order x '
          'deeply nested def/class sources; both modes; non-trivial = inherit declared and nested definitions present',
  'explanation': "Theorems: strict lookup = own value, else (only if inherited) the NEAREST ancestor's, else error; a second definition on a node is "
                 'DuplicateVariable and changes nothing, a fresh one changes no other (node, name); lazy forcing yields the first definition per node '
